@@ -159,6 +159,9 @@ func levelPairs(r *common.Run) {
 	})
 	lookup.Flush(r, shards)
 	r.Set("value_pairs", int(done))
+	if int(done) < len(cases) {
+		r.SetCapped() // the time budget ended before every pair was visited
+	}
 	r.Set("value_pairs_total", len(cases))
 	r.Set("value_pair_reads", int(evals))
 }
